@@ -377,6 +377,82 @@ pub fn probe(func: &str) -> bool {
             }
         }
     }
+    // ---- every From conversion of dual_ops/from.rs (owned and borrowed): value, names and derivatives kept; raising adds a zero
+    //      Hessian, lowering drops only the higher-order terms
+    {
+        use rateslib::dual::Number;
+        for (ia, a, ra) in &ops {
+            let a1 = to1(a);
+            let mut ra1 = ra.clone();
+            ra1.h.clear();
+            let n0 = Number::F64(ra.v);
+            let n1 = Number::Dual(a1.clone());
+            let n2 = Number::Dual2(a.clone());
+            let konst = R { v: ra.v, g: BTreeMap::new(), h: BTreeMap::new() };
+            // -> f64
+            let fs: Vec<(&str, Option<f64>)> = vec![
+                ("f64::from(Dual)", catch(|| f64::from(a1.clone()))), ("f64::from(&Dual)", catch(|| f64::from(&a1))),
+                ("f64::from(Dual2)", catch(|| f64::from(a.clone()))), ("f64::from(&Dual2)", catch(|| f64::from(a))),
+                ("f64::from(Number::F64)", catch(|| f64::from(n0.clone()))), ("f64::from(&Number::F64)", catch(|| f64::from(&n0))),
+                ("f64::from(Number::Dual)", catch(|| f64::from(n1.clone()))), ("f64::from(&Number::Dual)", catch(|| f64::from(&n1))),
+                ("f64::from(Number::Dual2)", catch(|| f64::from(n2.clone()))), ("f64::from(&Number::Dual2)", catch(|| f64::from(&n2))),
+            ];
+            for (nm, got) in fs {
+                let inp = format!("{} of {}", nm, ia);
+                match got {
+                    Some(f) => { if !close(f, ra.v) { report("probe", func, &inp, &format!("{}", f), &format!("{}", ra.v), false); return true; } }
+                    None => { report("probe", func, &inp, "PANIC", "a value", false); return true; }
+                }
+            }
+            // -> Dual
+            let d1: Vec<(&str, Option<Dual>, &R)> = vec![
+                ("Dual::from(f64)", catch(|| Dual::from(ra.v)), &konst),
+                ("Dual::from(Dual2)", catch(|| Dual::from(a.clone())), &ra1), ("Dual::from(&Dual2)", catch(|| Dual::from(a)), &ra1),
+                ("Dual::from(Number::F64)", catch(|| Dual::from(n0.clone())), &konst), ("Dual::from(&Number::F64)", catch(|| Dual::from(&n0)), &konst),
+                ("Dual::from(Number::Dual)", catch(|| Dual::from(n1.clone())), &ra1), ("Dual::from(&Number::Dual)", catch(|| Dual::from(&n1)), &ra1),
+                ("Dual::from(Number::Dual2)", catch(|| Dual::from(n2.clone())), &ra1), ("Dual::from(&Number::Dual2)", catch(|| Dual::from(&n2)), &ra1),
+            ];
+            for (nm, got, exp) in d1 {
+                let inp = format!("{} of {}", nm, ia);
+                match got {
+                    Some(d) => { if cmp1(func, &inp, &d, exp) { return true; } }
+                    None => { report("probe", func, &inp, "PANIC", "a value", false); return true; }
+                }
+            }
+            // -> Dual2
+            let d2: Vec<(&str, Option<Dual2>, &R)> = vec![
+                ("Dual2::from(f64)", catch(|| Dual2::from(ra.v)), &konst),
+                ("Dual2::from(Dual)", catch(|| Dual2::from(a1.clone())), &ra1), ("Dual2::from(&Dual)", catch(|| Dual2::from(&a1)), &ra1),
+                ("Dual2::from(Number::F64)", catch(|| Dual2::from(n0.clone())), &konst), ("Dual2::from(&Number::F64)", catch(|| Dual2::from(&n0)), &konst),
+                ("Dual2::from(Number::Dual)", catch(|| Dual2::from(n1.clone())), &ra1), ("Dual2::from(&Number::Dual)", catch(|| Dual2::from(&n1)), &ra1),
+                ("Dual2::from(Number::Dual2)", catch(|| Dual2::from(n2.clone())), ra), ("Dual2::from(&Number::Dual2)", catch(|| Dual2::from(&n2)), ra),
+            ];
+            for (nm, got, exp) in d2 {
+                let inp = format!("{} of {}", nm, ia);
+                match got {
+                    Some(d) => { if cmp2(func, &inp, &d, exp, &[]) { return true; } }
+                    None => { report("probe", func, &inp, "PANIC", "a value", false); return true; }
+                }
+            }
+            // -> Number (the matching variant, unchanged)
+            let ns: Vec<(&str, Option<Number>, u8)> = vec![
+                ("Number::from(f64)", catch(|| Number::from(ra.v)), 0), ("Number::from(&f64)", catch(|| Number::from(&ra.v)), 0),
+                ("Number::from(Dual)", catch(|| Number::from(a1.clone())), 1), ("Number::from(&Dual)", catch(|| Number::from(&a1)), 1),
+                ("Number::from(Dual2)", catch(|| Number::from(a.clone())), 2), ("Number::from(&Dual2)", catch(|| Number::from(a)), 2),
+            ];
+            for (nm, got, kind) in ns {
+                let inp = format!("{} of {}", nm, ia);
+                let bad = match (&got, kind) {
+                    (Some(Number::F64(f)), 0) => { let b = !close(*f, ra.v); if b { report("probe", func, &inp, &format!("{}", f), &format!("{}", ra.v), false); } b }
+                    (Some(Number::Dual(d)), 1) => cmp1(func, &inp, d, &ra1),
+                    (Some(Number::Dual2(d)), 2) => cmp2(func, &inp, d, ra, &[]),
+                    (None, _) => { report("probe", func, &inp, "PANIC", "a value", false); true }
+                    _ => { report("probe", func, &inp, "another variant", "the variant of the argument's type", false); true }
+                };
+                if bad { return true; }
+            }
+        }
+    }
     // ---- gradient1_manifold (absent and present names)
     for (ia, a, ra) in &ops {
         let req = vec!["y".to_string(), "q_absent".to_string(), "x".to_string()];
